@@ -21,6 +21,7 @@ mutual
     | .leaf e =>
       match e with
       | .comment _ => pure []
+      | .pi t d => if List.contains t '>' || List.contains d '>' then pure [] else pure [.leaf (.pi t d)]
       | e => pure [.leaf e]
   def pruneList (cfg : Cfg) : List Node → Except Err (List Node)
     | [] => pure []
@@ -113,8 +114,17 @@ theorem keep_leaf (cfg : Cfg) (e : Event) (he : e.isStartEnd = false) (rest : St
     have : step cfg St.init (.text s f) = .ok (St.init, [.text s f]) := rfl
     rw [sanitizeFrom_ok_cons this]; simp [prune, ho, flattenList, Node.flatten]
   | pi t d =>
-    have : step cfg St.init (.pi t d) = .ok (St.init, [.pi t d]) := rfl
-    rw [sanitizeFrom_ok_cons this]; simp [prune, ho, flattenList, Node.flatten]
+    by_cases hgt : (List.contains t '>' || List.contains d '>') = true
+    · have : step cfg St.init (.pi t d) = .ok (St.init, []) := by
+        simp only [step, hgt, ↓reduceIte]; rfl
+      rw [sanitizeFrom_ok_cons this, bind_pure_nil]
+      simp only [prune, hgt, ↓reduceIte]
+      simp [ho, flattenList]
+    · have : step cfg St.init (.pi t d) = .ok (St.init, [.pi t d]) := by
+        simp only [step, hgt, Bool.false_eq_true, ↓reduceIte]; rfl
+      rw [sanitizeFrom_ok_cons this]
+      simp only [prune, hgt, Bool.false_eq_true, ↓reduceIte]
+      simp [ho, flattenList, Node.flatten]
   | doctype n p s =>
     have : step cfg St.init (.doctype n p s) = .ok (St.init, [.doctype n p s]) := rfl
     rw [sanitizeFrom_ok_cons this]; simp [prune, ho, flattenList, Node.flatten]
